@@ -76,7 +76,13 @@ def verify(name, all_checks=False, tier="quick", before=False):
 
         def apply():
             r = sh(["git", "-C", wt, "apply", str(d / "patch.diff")])
-            assert r.returncode == 0, r.stderr
+            if r.returncode != 0:
+                # the repository moved on under the change (a fix: commit next to its hunk): re-apply with context fuzz and keep the rebased patch
+                r2 = sh(["patch", "-s", "-p1", "-F3", "--no-backup-if-mismatch", "-i", str(d / "patch.diff")], cwd=wt)
+                assert r2.returncode == 0, r.stderr + r2.stdout
+                rebased = sh(["git", "-C", wt, "diff", "--", "src"]).stdout
+                (d / "patch.diff").write_text(rebased)
+                meta["rebased_onto_repo_commit"] = sh(["git", "-C", "/repo", "log", "--format=%h", "-1"]).stdout.strip()
 
         def run_demo():
             r = sh([PY, "demo.py"], cwd=wt, env=env, timeout=1800)
